@@ -3,3 +3,5 @@
 
 #[path = "/verif/kani/vanilla/driver.rs"]
 mod driver;
+#[path = "/verif/kani/vanilla/advance.rs"]
+mod advance;
